@@ -53,8 +53,21 @@ pub enum Stdin<'a> {
     Data(&'a [u8]),
 }
 
+/// resource limits of a child: address space (always: protects the machine from a runaway child;
+/// hitting it aborts the child, which is reported like any other abnormal end) and, optionally, stack
+#[derive(Clone, Copy, Debug)]
+pub struct Limits {
+    pub as_bytes: u64,
+    pub stack_bytes: Option<u64>,
+}
+pub const DEFAULT_LIMITS: Limits = Limits { as_bytes: 3 << 30, stack_bytes: None };
+
 /// run the CLI on `source`
 pub fn run_cli(source: &[u8], stdin: Stdin, interpreted: bool, out_cap: usize, timeout_ms: u64) -> CliOut {
+    run_cli_limited(source, stdin, interpreted, out_cap, timeout_ms, DEFAULT_LIMITS)
+}
+
+pub fn run_cli_limited(source: &[u8], stdin: Stdin, interpreted: bool, out_cap: usize, timeout_ms: u64, limits: Limits) -> CliOut {
     let n = COUNTER.fetch_add(1, Ordering::Relaxed);
     let _ = std::fs::create_dir_all(TMP_DIR);
     let base = format!("{}/c{}-{}", TMP_DIR, std::process::id(), n);
@@ -86,6 +99,20 @@ pub fn run_cli(source: &[u8], stdin: Stdin, interpreted: bool, out_cap: usize, t
     cmd.env("RUST_BACKTRACE", "0");
     cmd.stdout(Stdio::from(outf));
     cmd.stderr(Stdio::from(errf));
+    unsafe {
+        use std::os::unix::process::CommandExt;
+        cmd.pre_exec(move || {
+            let l = libc::rlimit { rlim_cur: limits.as_bytes, rlim_max: limits.as_bytes };
+            libc::setrlimit(libc::RLIMIT_AS, &l);
+            if let Some(st) = limits.stack_bytes {
+                let l = libc::rlimit { rlim_cur: st, rlim_max: st };
+                libc::setrlimit(libc::RLIMIT_STACK, &l);
+            }
+            let c = libc::rlimit { rlim_cur: 0, rlim_max: 0 };
+            libc::setrlimit(libc::RLIMIT_CORE, &c);
+            Ok(())
+        });
+    }
     match stdin {
         Stdin::Closed => {
             cmd.stdin(Stdio::null());
